@@ -3,6 +3,9 @@
   differentiability of the root `calc_cubic_root` returns.
 -/
 import Verif.Lemmas.C13
+import Mathlib.Analysis.SpecialFunctions.Pow.Deriv
+import Mathlib.Analysis.SpecialFunctions.Trigonometric.InverseDeriv
+import Mathlib.Analysis.SpecialFunctions.Trigonometric.Deriv
 namespace Verif.C13
 open Verif RealLike
 
@@ -226,5 +229,248 @@ theorem trig_root_all (a b c : ℝ) (k : Nat) (hdet : cubDet a b c < 0) :
     refine ⟨?_, trig_algebra_root a b c q m r3 c1 (-s1) C3 hm0 hr0 h3 hb hC3pos.ne' hC hq' hQdef⟩
     rw [← key]
     refine Prod.ext ?_ (Prod.ext ?_ ?_) <;> simp only [] <;> ring
+
+section diff
+open Filter Topology
+
+/-- differentiability of the trigonometric root formula, generic in the constants and in the outer
+    trigonometric function `T` (`sin`, `sin (· + π/3)`, `cos (· + π/6)`) -/
+theorem trig_formula_differentiableAt (P Q A T : ℝ → ℝ) (t c0 c1 c2 c3 c4 : ℝ)
+    (hP : DifferentiableAt ℝ P t) (hQ : DifferentiableAt ℝ Q t) (hA : DifferentiableAt ℝ A t)
+    (hT : Differentiable ℝ T) (hp : P t < 0) (hc3 : c3 ≠ 0)
+    (hF : |c2 * Q t / (c3 * (Real.sqrt (-P t) * Real.sqrt (-P t) * Real.sqrt (-P t)))| < 1) :
+    DifferentiableAt ℝ (fun s => c0 * Real.sqrt (-P s)
+      * T (c1 * Real.arcsin (c2 * Q s / (c3 * (Real.sqrt (-P s) * Real.sqrt (-P s) * Real.sqrt (-P s))))) - A s / c4) t := by
+  have hmpos : 0 < Real.sqrt (-P t) := Real.sqrt_pos.mpr (by linarith)
+  have hn : DifferentiableAt ℝ (fun s => -P s) t := hP.neg
+  have hm : DifferentiableAt ℝ (fun s => Real.sqrt (-P s)) t := hn.sqrt (by linarith)
+  have hden : DifferentiableAt ℝ (fun s => c3 * (Real.sqrt (-P s) * Real.sqrt (-P s) * Real.sqrt (-P s))) t :=
+    ((hm.mul hm).mul hm).const_mul c3
+  have hFd : DifferentiableAt ℝ
+      (fun s => c2 * Q s / (c3 * (Real.sqrt (-P s) * Real.sqrt (-P s) * Real.sqrt (-P s)))) t :=
+    (hQ.const_mul c2).div hden (mul_ne_zero hc3 (by positivity))
+  obtain ⟨h1, h2⟩ := abs_lt.mp hF
+  have harc : DifferentiableAt ℝ
+      (fun s => Real.arcsin (c2 * Q s / (c3 * (Real.sqrt (-P s) * Real.sqrt (-P s) * Real.sqrt (-P s))))) t :=
+    DifferentiableAt.comp (g := Real.arcsin) t (Real.differentiableAt_arcsin.mpr ⟨h1.ne', h2.ne⟩) hFd
+  have hTd : DifferentiableAt ℝ
+      (fun s => T (c1 * Real.arcsin (c2 * Q s / (c3 * (Real.sqrt (-P s) * Real.sqrt (-P s) * Real.sqrt (-P s)))))) t :=
+    DifferentiableAt.comp (g := T) t (hT _) (harc.const_mul c1)
+  exact ((hm.const_mul c0).mul hTd).sub (hA.div_const c4)
+
+theorem trig_root_differentiableAt (A B C : ℝ → ℝ) (t : ℝ) (k : Nat) (hA : DifferentiableAt ℝ A t)
+    (hB : DifferentiableAt ℝ B t) (hC : DifferentiableAt ℝ C t) (hdet : cubDet (A t) (B t) (C t) < 0) :
+    (∀ᶠ s in 𝓝 t, cubDet (A s) (B s) (C s) < 0) ∧
+    DifferentiableAt ℝ (fun s => calcCubicRoot (A s) (B s) (C s) k) t := by
+  have hP : DifferentiableAt ℝ (fun s => cubP (A s) (B s)) t := by
+    simp only [cubP]; fun_prop
+  have hQ : DifferentiableAt ℝ (fun s => cubQ (A s) (B s) (C s)) t := by
+    simp only [cubQ]; fun_prop
+  have hD : DifferentiableAt ℝ (fun s => cubDet (A s) (B s) (C s)) t := by
+    simp only [cubDet]; fun_prop
+  have hev : ∀ᶠ s in 𝓝 t, cubDet (A s) (B s) (C s) < 0 := hD.continuousAt.eventually (Iio_mem_nhds hdet)
+  refine ⟨hev, ?_⟩
+  obtain ⟨hp, _, _, hF⟩ := trig_facts _ _ _ hdet
+  have h20 : (2.0:ℝ) ≠ 0 := by norm_num
+  simp only [trigArg, RealLike.sqrt] at hF
+  rcases k with _ | _ | k
+  · refine DifferentiableAt.congr_of_eventuallyEq
+      (trig_formula_differentiableAt _ _ A Real.sin t (2.0 / Real.sqrt 3.0) (1.0 / 3.0) (3.0 * Real.sqrt 3.0) 2.0 3.0
+        hP hQ hA Real.differentiable_sin hp h20 hF) ?_
+    filter_upwards [hev] with s hs
+    obtain ⟨_, hlt, hle, hFs⟩ := trig_facts _ _ _ hs
+    obtain ⟨h1, h2⟩ := abs_lt.mp hFs
+    have e1 : RealLike.lt (trigArg (cubP (A s) (B s)) (cubQ (A s) (B s) (C s))) (-1.0:ℝ) = false := by
+      show decide (_ < (-1.0:ℝ)) = false
+      rw [decide_eq_false_iff_not]; norm_num; linarith
+    have e2 : RealLike.lt (1.0:ℝ) (trigArg (cubP (A s) (B s)) (cubQ (A s) (B s) (C s))) = false := by
+      show decide ((1.0:ℝ) < _) = false
+      rw [decide_eq_false_iff_not]; norm_num; linarith
+    simp only [calcCubicRoot, hle, Bool.false_eq_true, if_false, clip, e1, e2]
+    rfl
+  · refine DifferentiableAt.congr_of_eventuallyEq
+      (trig_formula_differentiableAt _ _ A (fun x => Real.sin (x + Real.pi / 3.0)) t ((-2.0) / Real.sqrt 3.0) (1.0 / 3.0) (3.0 * Real.sqrt 3.0) 2.0 3.0
+        hP hQ hA (by fun_prop) hp h20 hF) ?_
+    filter_upwards [hev] with s hs
+    obtain ⟨_, hlt, hle, hFs⟩ := trig_facts _ _ _ hs
+    obtain ⟨h1, h2⟩ := abs_lt.mp hFs
+    have e1 : RealLike.lt (trigArg (cubP (A s) (B s)) (cubQ (A s) (B s) (C s))) (-1.0:ℝ) = false := by
+      show decide (_ < (-1.0:ℝ)) = false
+      rw [decide_eq_false_iff_not]; norm_num; linarith
+    have e2 : RealLike.lt (1.0:ℝ) (trigArg (cubP (A s) (B s)) (cubQ (A s) (B s) (C s))) = false := by
+      show decide ((1.0:ℝ) < _) = false
+      rw [decide_eq_false_iff_not]; norm_num; linarith
+    simp only [calcCubicRoot, hle, Bool.false_eq_true, if_false, clip, e1, e2]
+    rfl
+  · refine DifferentiableAt.congr_of_eventuallyEq
+      (trig_formula_differentiableAt _ _ A (fun x => Real.cos (x + Real.pi / 6.0)) t (2.0 / Real.sqrt 3.0) (1.0 / 3.0) (3.0 * Real.sqrt 3.0) 2.0 3.0
+        hP hQ hA (by fun_prop) hp h20 hF) ?_
+    filter_upwards [hev] with s hs
+    obtain ⟨_, hlt, hle, hFs⟩ := trig_facts _ _ _ hs
+    obtain ⟨h1, h2⟩ := abs_lt.mp hFs
+    have e1 : RealLike.lt (trigArg (cubP (A s) (B s)) (cubQ (A s) (B s) (C s))) (-1.0:ℝ) = false := by
+      show decide (_ < (-1.0:ℝ)) = false
+      rw [decide_eq_false_iff_not]; norm_num; linarith
+    have e2 : RealLike.lt (1.0:ℝ) (trigArg (cubP (A s) (B s)) (cubQ (A s) (B s) (C s))) = false := by
+      show decide ((1.0:ℝ) < _) = false
+      rw [decide_eq_false_iff_not]; norm_num; linarith
+    simp only [calcCubicRoot, hle, Bool.false_eq_true, if_false, clip, e1, e2]
+    rfl
+
+/-- `det < 0`: the root `calc_cubic_root` returns, as a function of a parameter the coefficients depend on
+    differentiably, HAS the derivative the code computes: `∂y/∂a·a' + ∂y/∂b·b' + ∂y/∂c·c'` with
+    `(∂y/∂a, ∂y/∂b, ∂y/∂c) = calc_cubic_root_derivatives(a, b, c, k)` -/
+theorem trig_root_hasDerivAt (A B C : ℝ → ℝ) (a' b' c' t : ℝ) (k : Nat) (hA : HasDerivAt A a' t)
+    (hB : HasDerivAt B b' t) (hC : HasDerivAt C c' t) (hdet : cubDet (A t) (B t) (C t) < 0) :
+    HasDerivAt (fun s => calcCubicRoot (A s) (B s) (C s) k)
+      ((calcCubicRootDerivs (A t) (B t) (C t) k).1 * a' + (calcCubicRootDerivs (A t) (B t) (C t) k).2.1 * b'
+        + (calcCubicRootDerivs (A t) (B t) (C t) k).2.2 * c') t := by
+  obtain ⟨hev, hd⟩ := trig_root_differentiableAt A B C t k hA.differentiableAt hB.differentiableAt
+    hC.differentiableAt hdet
+  have hy := hd.hasDerivAt
+  obtain ⟨hchain, _, hsimple⟩ := trig_root_all (A t) (B t) (C t) k hdet
+  have hroot : ∀ᶠ s in 𝓝 t, cubicPoly (A s) (B s) (C s) (calcCubicRoot (A s) (B s) (C s) k) = 0 :=
+    hev.mono fun s hs => (trig_root_all (A s) (B s) (C s) k hs).2.1
+  have e := implicit_row (fun s => calcCubicRoot (A s) (B s) (C s) k) A B C _ a' b' c' t hy hA hB hC hroot hsimple
+  rw [hchain, ← e]
+  exact hy
+
+theorem cbrt_zero : Verif.Real.cbrt 0 = 0 := by
+  unfold Verif.Real.cbrt
+  rw [if_pos le_rfl]; exact Real.zero_rpow (by norm_num)
+
+theorem cbrt_differentiableAt (x : ℝ) (hx : x ≠ 0) : DifferentiableAt ℝ Verif.Real.cbrt x := by
+  rcases lt_or_gt_of_ne hx with h | h
+  · have hev : Verif.Real.cbrt =ᶠ[𝓝 x] fun y => -((-y) ^ ((1:ℝ) / 3)) := by
+      filter_upwards [Iio_mem_nhds h] with y hy
+      have hy' : y < 0 := hy
+      unfold Verif.Real.cbrt
+      rw [if_neg (by linarith)]
+    refine DifferentiableAt.congr_of_eventuallyEq ?_ hev
+    have h1 : DifferentiableAt ℝ (fun y : ℝ => y ^ ((1:ℝ) / 3)) (-x) :=
+      Real.differentiableAt_rpow_const_of_ne _ (by linarith)
+    have h2 : DifferentiableAt ℝ (fun y : ℝ => -y) x := differentiableAt_id.neg
+    exact (DifferentiableAt.comp (g := fun y : ℝ => y ^ ((1:ℝ) / 3)) x h1 h2).neg
+  · have hev : Verif.Real.cbrt =ᶠ[𝓝 x] fun y => y ^ ((1:ℝ) / 3) := by
+      filter_upwards [Ioi_mem_nhds h] with y hy
+      have hy' : 0 < y := hy
+      unfold Verif.Real.cbrt
+      rw [if_pos hy'.le]
+    exact (Real.differentiableAt_rpow_const_of_ne _ h.ne').congr_of_eventuallyEq hev
+
+/-- `det > 0` (one real root, Cardano's formula): the number `calc_cubic_root` returns is a simple root -/
+theorem cardano_root_simple (a b c : ℝ) (k : Nat) (hdet : 0 < cubDet a b c) :
+    cubicPoly a b c (calcCubicRoot a b c k) = 0 ∧ cubicPoly' a b (calcCubicRoot a b c k) ≠ 0 := by
+  have hle : RealLike.le (0.0:ℝ) (cubDet a b c) = true := by
+    show decide ((0.0:ℝ) ≤ cubDet a b c) = true
+    rw [decide_eq_true_eq]; norm_num; exact hdet.le
+  have hdetdef : cubDet a b c = cubQ a b c * cubQ a b c / 4 + cubP a b * cubP a b * cubP a b / 27 := by
+    simp only [cubDet]; norm_num
+  have hPdef : cubP a b = b - a * a / 3 := by simp only [cubP]; norm_num
+  have hQdef : cubQ a b c = 2 * a * a * a / 27 - a * b / 3 + c := by simp only [cubQ]; norm_num
+  have hs0 : Real.sqrt (cubDet a b c) * Real.sqrt (cubDet a b c) = cubDet a b c := Real.mul_self_sqrt hdet.le
+  have hs0pos : 0 < Real.sqrt (cubDet a b c) := Real.sqrt_pos.mpr hdet
+  have hu3 := Real.cbrt_cube (-cubQ a b c * (1 / 2) + Real.sqrt (cubDet a b c))
+  have hv3 := Real.cbrt_cube (-cubQ a b c * (1 / 2) - Real.sqrt (cubDet a b c))
+  have hhalf : (0.5 : ℝ) = 1 / 2 := by norm_num
+  have h30 : (3.0:ℝ) = 3 := by norm_num
+  simp only [calcCubicRoot, hle, if_true, RealLike.sqrt, RealLike.cbrt, hhalf, h30]
+  generalize Real.cbrt (-cubQ a b c * (1 / 2) + Real.sqrt (cubDet a b c)) = u at *
+  generalize Real.cbrt (-cubQ a b c * (1 / 2) - Real.sqrt (cubDet a b c)) = v at *
+  generalize Real.sqrt (cubDet a b c) = s0 at *
+  generalize cubQ a b c = Q at *
+  generalize cubP a b = P at *
+  generalize cubDet a b c = D at *
+  have hq : Q = -(u ^ 3 + v ^ 3) := by linarith
+  have hs : s0 = (u ^ 3 - v ^ 3) / 2 := by linarith
+  have hp : P = -3 * u * v := by
+    apply cube_inj
+    have : P * P * P / 27 = s0 * s0 - Q * Q / 4 := by rw [hs0, hdetdef]; ring
+    rw [hq, hs] at this
+    linear_combination 27 * this
+  have hb : b = P + a * a / 3 := by linarith
+  have hc : c = Q - 2 * a * a * a / 27 + a * b / 3 := by linarith
+  have huv : u ≠ v := by
+    intro h; rw [h] at hs; rw [hs] at hs0pos; norm_num at hs0pos
+  rw [cubicPoly_real, cubicPoly'_real]
+  subst hc hb hq hp
+  constructor
+  · ring
+  · have : 3 * (u + v - a / 3) * (u + v - a / 3) + 2 * a * (u + v - a / 3) + (-3 * u * v + a * a / 3)
+        = 3 * (u * u + u * v + v * v) := by ring
+    rw [this]
+    have hpos : 0 < u * u + u * v + v * v := by
+      have : u - v ≠ 0 := sub_ne_zero.mpr huv
+      nlinarith [sq_nonneg (u + v), sq_pos_of_ne_zero this]
+    positivity
+
+/-- off the band the two cube-root arguments of Cardano's formula are non-zero -/
+theorem cardano_args_ne_zero (a b c : ℝ) (hdet : 0 < cubDet a b c) (hreg : regularised a b c = false) :
+    -cubQ a b c * 0.5 + Real.sqrt (cubDet a b c) ≠ 0 ∧ -cubQ a b c * 0.5 - Real.sqrt (cubDet a b c) ≠ 0 := by
+  have hlt : RealLike.lt (0.0:ℝ) (cubDet a b c) = true := by
+    show decide ((0.0:ℝ) < cubDet a b c) = true
+    rw [decide_eq_true_eq]; norm_num; exact hdet
+  simp only [regularised, hlt, if_true] at hreg
+  simp only [Bool.or_eq_false_iff] at hreg
+  obtain ⟨⟨h1, h2⟩, _⟩ := hreg
+  have small : RealLike.lt (RealLike.abs (RealLike.sq (RealLike.cbrt (RealLike.abs (0:ℝ))))) (1.0e-5:ℝ) = true := by
+    show decide (_root_.abs (Verif.Real.cbrt (_root_.abs (0:ℝ)) * Verif.Real.cbrt (_root_.abs (0:ℝ))) < (1.0e-5:ℝ)) = true
+    rw [decide_eq_true_eq, abs_zero, cbrt_zero]; norm_num
+  constructor
+  · intro h0
+    have : RealLike.sqrt (cubDet a b c) - 0.5 * cubQ a b c = 0 := by
+      show Real.sqrt _ - _ = 0
+      linarith
+    rw [this, small] at h1; exact Bool.noConfusion h1
+  · intro h0
+    have : -RealLike.sqrt (cubDet a b c) - 0.5 * cubQ a b c = 0 := by
+      show -Real.sqrt _ - _ = 0
+      linarith
+    rw [this, small] at h2; exact Bool.noConfusion h2
+
+theorem cardano_root_differentiableAt (A B C : ℝ → ℝ) (t : ℝ) (k : Nat) (hA : DifferentiableAt ℝ A t)
+    (hB : DifferentiableAt ℝ B t) (hC : DifferentiableAt ℝ C t) (hdet : 0 < cubDet (A t) (B t) (C t))
+    (hreg : regularised (A t) (B t) (C t) = false) :
+    (∀ᶠ s in 𝓝 t, 0 < cubDet (A s) (B s) (C s)) ∧
+    DifferentiableAt ℝ (fun s => calcCubicRoot (A s) (B s) (C s) k) t := by
+  have hQ : DifferentiableAt ℝ (fun s => cubQ (A s) (B s) (C s)) t := by
+    simp only [cubQ]; fun_prop
+  have hD : DifferentiableAt ℝ (fun s => cubDet (A s) (B s) (C s)) t := by
+    simp only [cubDet, cubP, cubQ]; fun_prop
+  have hev : ∀ᶠ s in 𝓝 t, 0 < cubDet (A s) (B s) (C s) := hD.continuousAt.eventually (Ioi_mem_nhds hdet)
+  refine ⟨hev, ?_⟩
+  obtain ⟨hu, hv⟩ := cardano_args_ne_zero _ _ _ hdet hreg
+  have hS : DifferentiableAt ℝ (fun s => Real.sqrt (cubDet (A s) (B s) (C s))) t := hD.sqrt hdet.ne'
+  have hQ' : DifferentiableAt ℝ (fun s => -cubQ (A s) (B s) (C s) * 0.5) t := hQ.neg.mul_const _
+  have hU : DifferentiableAt ℝ (fun s => Verif.Real.cbrt (-cubQ (A s) (B s) (C s) * 0.5 + Real.sqrt (cubDet (A s) (B s) (C s)))) t :=
+    DifferentiableAt.comp (g := Verif.Real.cbrt) t (cbrt_differentiableAt _ hu) (hQ'.add hS)
+  have hV : DifferentiableAt ℝ (fun s => Verif.Real.cbrt (-cubQ (A s) (B s) (C s) * 0.5 - Real.sqrt (cubDet (A s) (B s) (C s)))) t :=
+    DifferentiableAt.comp (g := Verif.Real.cbrt) t (cbrt_differentiableAt _ hv) (hQ'.sub hS)
+  refine DifferentiableAt.congr_of_eventuallyEq ((hU.add hV).sub (hA.div_const 3.0)) ?_
+  filter_upwards [hev] with s hs
+  have hle : RealLike.le (0.0:ℝ) (cubDet (A s) (B s) (C s)) = true := by
+    show decide ((0.0:ℝ) ≤ cubDet (A s) (B s) (C s)) = true
+    rw [decide_eq_true_eq]; norm_num; exact hs.le
+  simp only [calcCubicRoot, hle, if_true]
+  rfl
+
+theorem cardano_root_hasDerivAt (A B C : ℝ → ℝ) (a' b' c' t : ℝ) (k : Nat) (hA : HasDerivAt A a' t)
+    (hB : HasDerivAt B b' t) (hC : HasDerivAt C c' t) (hdet : 0 < cubDet (A t) (B t) (C t))
+    (hreg : regularised (A t) (B t) (C t) = false) :
+    HasDerivAt (fun s => calcCubicRoot (A s) (B s) (C s) k)
+      ((calcCubicRootDerivs (A t) (B t) (C t) k).1 * a' + (calcCubicRootDerivs (A t) (B t) (C t) k).2.1 * b'
+        + (calcCubicRootDerivs (A t) (B t) (C t) k).2.2 * c') t := by
+  obtain ⟨hev, hd⟩ := cardano_root_differentiableAt A B C t k hA.differentiableAt hB.differentiableAt
+    hC.differentiableAt hdet hreg
+  have hy := hd.hasDerivAt
+  have hchain := cardano_chain_eq_implicit_aux (A t) (B t) (C t) k hdet hreg
+  have hsimple := (cardano_root_simple (A t) (B t) (C t) k hdet).2
+  have hroot : ∀ᶠ s in 𝓝 t, cubicPoly (A s) (B s) (C s) (calcCubicRoot (A s) (B s) (C s) k) = 0 :=
+    hev.mono fun s hs => (cardano_root_simple (A s) (B s) (C s) k hs).1
+  have e := implicit_row (fun s => calcCubicRoot (A s) (B s) (C s) k) A B C _ a' b' c' t hy hA hB hC hroot hsimple
+  rw [hchain, ← e]
+  exact hy
+
+end diff
 
 end Verif.C13
